@@ -158,6 +158,7 @@ func ruleTabPriority(c *Ctx, r *R) {
 			len(ret.Args[0].Args) == 1 && len(ret.Args[1].Args) == 1 &&
 			ret.Args[0].Args[0].Eq(tIndex(args[0], tVar(nil, "I"))) && ret.Args[1].Args[0].Eq(tIndex(args[0], tVar(nil, "J"))) {
 			var rps []*State
+			var notHoisted []string
 			haveRank := false
 			if rfl := c.localFuncLit(fd, strings.TrimPrefix(ret.Args[0].Name, "var.")); strings.HasPrefix(ret.Args[0].Name, "var.") && rfl != nil && len(rfl.Type.Params.List) == 1 && len(rfl.Type.Params.List[0].Names) == 1 {
 				rin := newInterp(c)
@@ -188,6 +189,13 @@ func ruleTabPriority(c *Ctx, r *R) {
 						base = true
 					}
 					if base {
+						// a path that keeps the plain priority may single out struct and interface
+						// definitions only: every other definition of a `type` is resolved at compile time
+						for _, m := range regexp.MustCompile(`E\.Tokens\[1\]\.Symbol == "([^"]+)"`).FindAllStringSubmatch(condStrings(rp), -1) {
+							if m[1] != "struct" && m[1] != "interface" {
+								notHoisted = append(notHoisted, m[1])
+							}
+						}
 						continue
 					}
 					// a folded constant under E.Symbol == "kind" (the table is a package-level literal)
@@ -212,6 +220,8 @@ func ruleTabPriority(c *Ctx, r *R) {
 				if okAll {
 					good = true
 				}
+				r.check(len(notHoisted) == 0, "every non-struct type hoisted", c.Pos(fl), "only struct and interface definitions keep the plain priority",
+					"treeSort's rank leaves type declarations defined from "+strings.Join(notHoisted, ", ")+" with the struct types: `type Shade Small` (a type defined from a name) declared after a struct that uses it as a field type is compiled too late — the field becomes a struct type `Shade` (zero value nil, stores not converted)")
 			}
 		}
 		r.check(good, "comparator", c.Pos(fl), "less(i,j) = priority[x[i].Symbol] > priority[x[j].Symbol]",
@@ -565,6 +575,60 @@ func ruleLoadTypeDeps(c *Ctx, r *R) {
 	r.check(scans != "", "type definitions scanned", c.Pos(fd), "the sorter looks at the names a type definition mentions",
 		"treeSort hoists the named non-struct types but leaves them in source order: `type Grid []Row` declared before `type Row []int` (or `type C B; type B A`) is compiled while Row is unknown — elements lose their type, a struct made from C fails with `Object is nil, not *structT`")
 	if scans != "" {
+		// ... and to every child: the scanner calls itself on the value of a range over the
+		// children of the node it was given (not on one chosen operand)
+		allKids := false
+		for _, f := range fns {
+			if c.fnName(f) != scans {
+				continue
+			}
+			params := map[types.Object]bool{}
+			for _, fl := range f.Type.Params.List {
+				for _, nm := range fl.Names {
+					params[c.Info.Defs[nm]] = true
+				}
+			}
+			ast.Inspect(f.Body, func(n ast.Node) bool {
+				rs, ok := n.(*ast.RangeStmt)
+				if !ok {
+					return true
+				}
+				sel, ok := unparen(rs.X).(*ast.SelectorExpr)
+				if !ok || sel.Sel.Name != "Tokens" {
+					return true
+				}
+				base, ok := unparen(sel.X).(*ast.Ident)
+				if !ok || !params[c.Obj(base)] {
+					return true
+				}
+				v, ok := rs.Value.(*ast.Ident)
+				if !ok {
+					return true
+				}
+				ast.Inspect(rs.Body, func(m ast.Node) bool {
+					switch x := m.(type) {
+					case *ast.CallExpr:
+						// the recursive call, or a helper that is handed the child
+						for _, a := range x.Args {
+							if id, ok := unparen(a).(*ast.Ident); ok && c.Obj(id) == c.Obj(v) {
+								if h := c.DeclOf(c.Callee(x)); h != nil {
+									allKids = true
+								}
+							}
+						}
+					case *ast.SelectorExpr:
+						// or the child is examined in place (sub.Symbol)
+						if id, ok := unparen(x.X).(*ast.Ident); ok && c.Obj(id) == c.Obj(v) && x.Sel.Name == "Symbol" {
+							allKids = true
+						}
+					}
+					return true
+				})
+				return true
+			})
+		}
+		r.check(allKids, "every operand examined", c.Pos(fd), "the scan descends into every child of a type expression",
+			"the scan for mentioned type names follows one operand of a type expression only: the key of `type Counts map[Word]int` is not examined, so Counts is compiled before `type Word string` and gets a non-string key type — all string keys collapse into one")
 		r.check(rootSeen, "definition root examined", c.Pos(fd), "the name test applies to the definition node itself",
 			"the scan for mentioned type names looks only at the children of the node it is given: a direct definition `type Celsius Temp` (whose definition IS the name) is not held back until `type Temp float64` is compiled, and Celsius becomes a struct type Temp")
 	}
